@@ -353,6 +353,7 @@ func TestDeterminism(t *testing.T) {
 		o := j5sgen.DefaultOpts()
 		o.MaxPackages, o.MaxFiles = 3, 3
 		o.OddNames = true
+		o.Entities = true
 		b, classes := j5sgen.Draw(t, o)
 		files := b.Render()
 		cls := []string{}
